@@ -367,7 +367,10 @@ def call_contract(E, qual, args, node):
             if isinstance(e, str) and try_definitional(E, e, env):
                 continue
             try:
-                E.assume(E.spec_bool(e, env))
+                t_ = E.spec_bool(e, env)
+                E.assume(t_)
+                n_call = sum(1 for q_, _, _ in E.st.calls if q_ == qual) + 1
+                E.st.ghost.setdefault('facts', {}).setdefault('call:%s#%d' % (short.split('.')[-1], n_call), []).append(t_)
             except Unsupported:
                 continue          # a clause about the callee's own ghost state: not visible (and not needed) at the call site
     finally:
@@ -1308,7 +1311,8 @@ def kwargs_term(E, args, drop=()):
 @libfn('neurodsp.burst.detect_bursts_dual_threshold', 'neurodsp.burst.dualthresh.detect_bursts_dual_threshold')
 def nd_dual_threshold(E, args, node):
     """assumed contract: a boolean array of len(sig), a function of (sig, fs, amp thresholds, band, minimum cycle
-    count or None, minimum duration or None, filter options); ValueError unless 0 <= lo <= hi (own range checks)"""
+    count or None, minimum duration or None, filter options), even in the sign of the signal; ValueError unless
+    0 <= lo <= hi (own range checks)"""
     from .values import SeqSort
     sig = args.get(0, 'sig')
     fs = lift(args.get(1, 'fs'))
@@ -1323,7 +1327,9 @@ def nd_dual_threshold(E, args, node):
     f0, f1 = lift(f_range[0]), lift(f_range[1])
     f = E.seq_fn('dual_threshold', SeqSort, z3.RealSort(), z3.RealSort(), z3.RealSort(), z3.RealSort(), z3.RealSort(),
                  z3.BoolSort(), z3.IntSort(), z3.BoolSort(), z3.RealSort(), ValSort, SeqSort)
-    sx = f(E.seq(sig), to_real(fs), to_real(a0), to_real(a1), to_real(f0), to_real(f1), mn, mv, dn, dv, fk)
+    # assumed, like amp_by_time: the detector thresholds the analytic band amplitude, which is even in the sign of the signal
+    base = getattr(sig, 'neg_of', None) if getattr(sig, 'sx_heap', None) is E.st.heap.get(sig.ident) else None
+    sx = f(base if base is not None else E.seq(sig), to_real(fs), to_real(a0), to_real(a1), to_real(f0), to_real(f1), mn, mv, dn, dv, fk)
     at = E.seq_fn('seq_at_bool', SeqSort, z3.IntSort(), z3.BoolSort())
     r = E.new_arr(sig.n, BOOL, lambda i: Z(at(sx, i), BOOL))
     r.sx, r.sx_heap = sx, E.st.heap[r.ident]
